@@ -28,7 +28,7 @@ CONSTANTS
   EqWrongs = {}
   CallKinds <- Calls_none
   MaxCalls = 0
-  Laws = {"arrhenius", "eyring", "alt"}
+  Laws = {"arrhenius", "eyring", "alt", "hs"}
   TSources = {"param", "subs", "ramp"}
 INVARIANT RegistryIndependent
 INVARIANT WrittenIsPhysical
